@@ -73,3 +73,94 @@ def gen_world(exe, mode, backend, seed, histories, length, prefix):
     if rc != 0:
         raise RuntimeError("world generator failed: " + out[-2000:])
     return dt
+
+
+# ---------------- shared: a valid staking instantiation ----------------
+D = "ibc/C3E53D20BC7A4CC993B17C7971F8ECD06A433C10B6A96F4C4C3714F0624C56DA"
+T0 = 1_700_000_000_000_000_000
+
+
+class Cfg:
+    def __init__(self, rnd=None, tag=0):
+        rnd = rnd or random.Random(0)
+        self.me = b32.addr("osmo", "contract%d" % tag, 32)
+        self.admin = b32.addr("osmo", "admin")
+        self.np = "celestia"; self.vp = "celestiavaloper"
+        self.staker = b32.addr(self.np, "staker"); self.collector = b32.addr(self.np, "collector")
+        self.validators = [b32.addr(self.vp, "val%d" % i) for i in range(2)]
+        self.channel = "channel-%d" % rnd.randrange(5000)
+        self.oracle = b32.addr("osmo", "oracle", 32) if rnd.random() < 0.7 else None
+        self.treasury = b32.addr("osmo", "treasury", 32) if rnd.random() < 0.5 else None
+        self.fee = rnd.choice([0, 1000, 10000]); self.min = 100; self.bp = 3600; self.unbonding = 7200
+        self.monitors = [b32.addr("osmo", "monitor0")]
+        self.sub = "stTIA"
+        self.users = [b32.addr("osmo", "user%d" % i) for i in range(4)]
+
+    def native(self):
+        return "(%s;%s;%s;[%s];%d;%s;%s)" % (hx(self.np), hx(self.vp), hx("utia"), ",".join(hx(v) for v in self.validators), self.unbonding, hx(self.staker), hx(self.collector))
+
+    def inst(self, t=T0):
+        o = hx(self.oracle) if self.oracle else "-"
+        tr = hx(self.treasury) if self.treasury else "-"
+        return "inst %d %s %s %s %s [%s] %d %s %s %s %s %s %d %s %d %s %s %d [%s]" % (
+            t, hx(self.admin), hx(self.np), hx(self.vp), hx("utia"), ",".join(hx(v) for v in self.validators), self.unbonding,
+            hx(self.staker), hx(self.collector), hx("osmo"), hx(D), hx(self.channel), self.min, o, self.fee, tr, hx(self.sub), self.bp,
+            ",".join(hx(m) for m in self.monitors))
+
+
+# ---------------- C12: ownership hand-over on both contracts ----------------
+def gen_own(seed, n):
+    """nominate / revoke / accept by 4 principals with block times at 7 days -1 s / exactly / +1 s after each
+    nomination; after every step an admin-only probe by every principal in a rolled-back transaction"""
+    rnd = random.Random(seed)
+    lines = []
+    week = 604800
+    for h in range(n):
+        c = Cfg(rnd, h)
+        treasury = h % 2 == 1
+        lines.append(header("osmosis", c.me))
+        sec = T0 // 10 ** 9
+        ppl = [c.admin] + c.users[:3]
+        if treasury:
+            lines.append("tinst %d %s - - {}" % (sec * 10 ** 9, hx(c.admin)))
+        else:
+            lines.append(c.inst(sec * 10 ** 9))
+        admin = c.admin; pending = None; mint = None        # generator's own guess of the state (heuristic only)
+        for k in range(rnd.randrange(6, 25)):
+            if mint is not None and rnd.random() < 0.6:
+                target = mint + rnd.choice([-1, 0, 1, -1, 0, week])
+                sec = max(sec, target)
+            else:
+                sec += rnd.randrange(1, 3 * 86400)
+            ns = sec * 10 ** 9 + rnd.randrange(10 ** 9)
+            op = rnd.choice(["xfer", "xfer", "accept", "accept", "accept", "revoke"])
+            if op == "xfer":
+                who = admin if rnd.random() < 0.75 else rnd.choice(ppl)
+                tgt = rnd.choice(ppl + ["not-an-address"])
+                v = "xfer_own %s" % hx(tgt)
+                if who == admin and tgt != "not-an-address":
+                    pending = tgt; mint = sec + week
+            elif op == "accept":
+                who = pending if (pending and rnd.random() < 0.75) else rnd.choice(ppl)
+                v = "accept_own"
+                if who == pending and (mint is None or sec >= mint):
+                    admin = pending; pending = None
+            else:
+                who = admin if rnd.random() < 0.7 else rnd.choice(ppl)
+                v = "revoke_own"
+                if who == admin:
+                    pending = None; mint = None
+            if treasury:
+                lines.append("texec %d %s %s" % (ns, hx(who), v))
+            else:
+                lines.append("exec %d - %s [] %s" % (ns, hx(who), v))
+            for p in ppl:
+                lines.append("tx_begin")
+                if treasury:
+                    lines.append("texec %d %s updcfg %s -" % (ns, hx(p), hx(c.users[3])))
+                else:
+                    lines.append("exec %d - %s [] updcfg - - - - %d" % (ns, hx(p), 100 + k))
+                lines.append("tx_abort")
+            if treasury:
+                lines.append("tquery")
+    return "\n".join(lines) + "\n", {"histories": n}
